@@ -238,16 +238,16 @@ pub fn run(a: &Args) {
         return;
     }
     let t = a.thorough();
-    explore::<1>(&mut r, a, 3);
-    explore::<2>(&mut r, a, 3);
-    explore::<3>(&mut r, a, 3);
-    explore::<8>(&mut r, a, if t { 3 } else { 2 });
-    explore::<9>(&mut r, a, if t { 3 } else { 2 });
+    guarded(&mut r, "C14|MAX=1|unexpected-panic", || "gdt 1".into(), |r| explore::<1>(r, a, 3));
+    guarded(&mut r, "C14|MAX=2|unexpected-panic", || "gdt 2".into(), |r| explore::<2>(r, a, 3));
+    guarded(&mut r, "C14|MAX=3|unexpected-panic", || "gdt 3".into(), |r| explore::<3>(r, a, 3));
+    guarded(&mut r, "C14|MAX=8|unexpected-panic", || "gdt 8".into(), |r| explore::<8>(r, a, if t { 3 } else { 2 }));
+    guarded(&mut r, "C14|MAX=9|unexpected-panic", || "gdt 9".into(), |r| explore::<9>(r, a, if t { 3 } else { 2 }));
     if a.shard == 0 {
         for p in ["user", "system", "alternating"] {
-            fill_big(&mut r, p);
+            guarded(&mut r, "C14|MAX=8192|unexpected-panic", || format!("gdtfill {}", p), |r| fill_big(r, p));
         }
-        crate::c12load::run_gdt(&mut r);
+        guarded(&mut r, "C14|load|unexpected-panic", || "gdtload".into(), |r| crate::c12load::run_gdt(r));
     }
     r.evals = 0;
     r.nontrivial = r.transitions;
